@@ -105,8 +105,10 @@ def check_chain(case, stats: Stats) -> None:
         owners_u = {id(m.uri_owner(u)) for u in uri_prefixes_of(r)}
         if len(owners_p | owners_u) != 1:
             raise Violation(f"chain: strings of input record {r['prefix']!r} are spread over several result records")
-    if norm_records(got) != norm_records(expected):
-        raise Violation(f"chain: records {norm_records(got)!r} differ from the documented fold {norm_records(expected)!r}")
+    # the statement fixes which strings end up together and which of them are canonical - not what happens to patterns
+    strip = lambda rs: [dict(r, pattern=None) for r in norm_records(rs)]  # noqa: E731
+    if strip(got) != strip(expected):
+        raise Violation(f"chain: records {strip(got)!r} differ from the documented fold {strip(expected)!r}")
     if cs:
         c1 = inputs[0]
         for r in in_records[0]:
